@@ -1,13 +1,14 @@
 #!/usr/bin/env python3
-"""Verify a seeded change produced by a sub-agent and run checks against it.
+"""Verify a seeded change and run checks against it.
 
 usage: mutant.py <agent_dir> <N> <seeded_id> <prop> [more props...]
+       mutant.py --seeded <seeded_id> [props...]      (re-verify a stored change)
 
-1. scratch worktree of /repo HEAD under /tmp; demo must pass there;
-2. apply the patch; demo must fail; the baseline suite must still be 109/37;
+1. scratch worktree of /repo HEAD under /tmp; the demonstration must pass there;
+2. apply the patch; the demonstration must fail; the baseline suite must still be 109/37;
 3. run the quick checks of the given properties against the scratch tree
    (XSIM_REPO) and report which ones fire;
-4. store patch.diff, demo.py, meta.json under /verif/seeded/<id>/;
+4. store patch.diff, demo.py, notes.md, meta.json under /verif/seeded/<id>/;
 5. remove the scratch worktree.
 """
 import json
@@ -26,7 +27,15 @@ def sh(cmd, **kw):
 
 
 def main():
-    agent_dir, n, sid, props = sys.argv[1], sys.argv[2], sys.argv[3], sys.argv[4:]
+    if sys.argv[1] == "--seeded":
+        sid, props = sys.argv[2], sys.argv[3:]
+        agent_dir = n = None
+        old = json.load(open(os.path.join(VERIF, "seeded", sid, "meta.json")))
+        if not props:
+            props = [old["breaks_property"]] + [p for p in old.get("checks", {}) if p != old["breaks_property"]]
+    else:
+        agent_dir, n, sid, props = sys.argv[1], sys.argv[2], sys.argv[3], sys.argv[4:]
+        old = {}
     budget = os.environ.get("MUT_BUDGET", "40")
     scratch = "/tmp/mv-%s" % sid
     sh("git -C /repo worktree remove --force %s" % scratch)
@@ -35,20 +44,25 @@ def main():
     out = os.path.join(VERIF, "seeded", sid)
     os.makedirs(out, exist_ok=True)
     try:
-        patch = open(os.path.join(agent_dir, "mutant%s.patch" % n)).read()
-        demo = open(os.path.join(agent_dir, "demo%s.py" % n)).read()
-        notes = open(os.path.join(agent_dir, "mutant%s.md" % n)).read() if os.path.exists(os.path.join(agent_dir, "mutant%s.md" % n)) else ""
-        demo2 = demo.replace('"%s"' % agent_dir, '__import__("os").environ.get("XANDIKOS_TREE", "/repo")').replace("'%s'" % agent_dir, '__import__("os").environ.get("XANDIKOS_TREE", "/repo")')
-        demo2 = demo2.replace(agent_dir, "/repo")
-        demo2 = "import sys as _s; _s.path.insert(0, %r)  # sandbox_compat lives next to the seeded changes\n" % os.path.join(VERIF, "seeded") + demo2
-        with open(os.path.join(out, "demo.py"), "w") as f:
-            f.write(demo2)
-        with open(os.path.join(out, "patch.diff"), "w") as f:
-            f.write(patch)
-        with open(os.path.join(out, "notes.md"), "w") as f:
-            f.write(notes)
+        if agent_dir is not None:
+            patch = open(os.path.join(agent_dir, "mutant%s.patch" % n)).read()
+            demo = open(os.path.join(agent_dir, "demo%s.py" % n)).read()
+            mdp = os.path.join(agent_dir, "mutant%s.md" % n)
+            notes = open(mdp).read() if os.path.exists(mdp) else ""
+            tree = '__import__("os").environ.get("XANDIKOS_TREE", "/repo")'
+            demo2 = demo.replace('"%s"' % agent_dir, tree).replace("'%s'" % agent_dir, tree).replace(agent_dir, "/repo")
+            demo2 = "import sys as _s; _s.path.insert(0, %r)  # sandbox_compat lives next to the seeded changes\n" % os.path.join(VERIF, "seeded") + demo2
+            with open(os.path.join(out, "demo.py"), "w") as f:
+                f.write(demo2)
+            with open(os.path.join(out, "patch.diff"), "w") as f:
+                f.write(patch)
+            with open(os.path.join(out, "notes.md"), "w") as f:
+                f.write(notes)
         env = dict(os.environ, XANDIKOS_TREE=scratch, PYTHONDONTWRITEBYTECODE="1")
-        meta = {"id": sid, "breaks_property": props[0], "source": "independent sub-agent given only the property text and a scratch worktree", "ran": []}
+        meta = {"id": sid, "breaks_property": old.get("breaks_property", props[0]),
+                "source": "independent sub-agent given only the property text and a scratch worktree", "ran": []}
+        if old.get("needs_to_manifest"):
+            meta["needs_to_manifest"] = old["needs_to_manifest"]
         d0 = sh([PY, os.path.join(out, "demo.py")], env=env, timeout=600)
         meta["demo_on_unchanged_tree_exit"] = d0.returncode
         a = sh("git -C %s apply %s" % (scratch, os.path.join(out, "patch.diff")))
@@ -72,7 +86,6 @@ def main():
                 caught[p] = {"exit": c.returncode, "lines": lines[:6], "summary": c.stdout.strip().splitlines()[-1] if c.stdout.strip() else c.stderr[-300:]}
                 meta["ran"].append("XSIM_REPO=<scratch worktree with the change> /venv/bin/python -m xsim check %s --tier quick --budget %s -> exit %d" % (p, budget, c.returncode))
                 print(p, "exit", c.returncode, *lines[:4], sep="\n   ")
-                # replays written against the scratch tree are not evidence
                 for l in lines:
                     mm = re.search(r"replay=(\S+)", l)
                     if mm and os.path.exists(mm.group(1)):
